@@ -1,0 +1,32 @@
+//go:build verif
+
+package hashing
+
+// Contracts for the text form of the mode enumerations of this package
+// (property C37: "every mode written as text is read back as the same
+// value"). Comment-only file: compiled only under the "verif" build tag,
+// contains no code. The "//@" lines are read by govc.
+//
+// For every supported (named, non-default) value v with documented name N:
+// the marshalling method writes v as exactly the bytes of N and reports no
+// error [written]; UnmarshalText, given exactly the bytes of N, reports no
+// error and stores v [readback]; it accepts nothing but supported values
+// [accepted] and leaves the destination alone when it fails [rejected]. The
+// round trip "UnmarshalText(MarshalText(v)) yields v and no error" is the
+// instance of [readback] for the bytes that [written] describes.
+
+// textis(b, s): the byte slice b spells the string s.
+//@ pred textis(b, s) = len(b) == len(s) && forall i in 0..len(s) :: b[i] == s[i]
+
+//@ func (Algorithm).MarshalText
+//@   ensures[written] a == Algorithm_AlgorithmSHA1 ==> result1 == nil && textis(result0, "sha1")
+//@   ensures[written] a == Algorithm_AlgorithmSHA256 ==> result1 == nil && textis(result0, "sha256")
+//@   ensures[written] a == Algorithm_AlgorithmXXH128 ==> result1 == nil && textis(result0, "xxh128")
+
+//@ func (*Algorithm).UnmarshalText
+//@   requires a != nil
+//@   ensures[readback] textis(textBytes, "sha1") ==> result == nil && deref(a) == Algorithm_AlgorithmSHA1
+//@   ensures[readback] textis(textBytes, "sha256") ==> result == nil && deref(a) == Algorithm_AlgorithmSHA256
+//@   ensures[readback] textis(textBytes, "xxh128") ==> result == nil && deref(a) == Algorithm_AlgorithmXXH128
+//@   ensures[accepted] result == nil ==> deref(a) == Algorithm_AlgorithmSHA1 || deref(a) == Algorithm_AlgorithmSHA256 || deref(a) == Algorithm_AlgorithmXXH128
+//@   ensures[rejected] result != nil ==> deref(a) == old(deref(a))
